@@ -218,6 +218,20 @@ theorem readLP24_inv {b x rest : Bytes} (h : readLP24 b = some (x, rest)) :
     subst h4
     simp [h1, h3, h2]
 
+theorem u16_inj {a b : Nat} (ha : a < 65536) (hb : b < 65536) (h : u16 a = u16 b) : a = b := by
+  have h1 := readU16_u16 ha []
+  have h2 := readU16_u16 hb []
+  rw [h] at h1
+  rw [h1] at h2
+  simpa using h2
+
+theorem u24_inj {a b : Nat} (ha : a < 16777216) (hb : b < 16777216) (h : u24 a = u24 b) : a = b := by
+  have h1 := readU24_u24 ha []
+  have h2 := readU24_u24 hb []
+  rw [h] at h1
+  rw [h1] at h2
+  simpa using h2
+
 /-! ## length facts (used for fuel / termination / no over-read arguments) -/
 theorem readU8_len {b r : Bytes} {n : Nat} (h : readU8 b = some (n, r)) : b.length = r.length + 1 := by
   have := (readU8_inv h).1; subst this; simp [u8]
